@@ -1,4 +1,5 @@
 """C14 — search returns sound, ordered, disjoint, longest and complete matches."""
+import itertools
 import multiprocessing as mp
 
 from common import Check, assert_repo_import, eval_cases, eval_one, canon_tree, coq_list, pystr, z, NPROC
@@ -240,6 +241,49 @@ def run(tier, seed, replay=None):
             for w, r, _, found in res[:: 37]:
                 model_cases.append((f"enc_cands (tk_find_all {gall} {tok_lit(w)} (fun _ => OK true))", r,
                                     {"shape": name, "tokens": [v for _, v in w]}))
+    # ---- predicates that carry state INSIDE a composite (Or / And of Balanced groups): every attempt must run on its own
+    #      copy of that state.  Relational checks (the model has no such predicates): searching the same expression object
+    #      twice, searching an equal fresh expression, and each reported match against the isolated run from its start
+    from codelimit.common.Location import Location
+    from codelimit.common.Token import Token
+    from codelimit.common.gsm import matcher
+    from codelimit.common.gsm.operator.OneOrMore import OneOrMore
+    from codelimit.common.token_matching.predicate.And import And
+    from codelimit.common.token_matching.predicate.Balanced import Balanced
+    from codelimit.common.token_matching.predicate.Name import Name
+    from codelimit.common.token_matching.predicate.Not import Not
+    from codelimit.common.token_matching.predicate.Or import Or
+    from pygments.token import Name as N, Punctuation as Pu
+    builders = {"name (groups | brackets)+": lambda: [Name(), OneOrMore(Or(Balanced("(", ")"), Balanced("[", "]")))],
+                "name (groups & not ;)+": lambda: [Name(), OneOrMore(And(Balanced("(", ")"), Not(";")))]}
+    alpha2 = ["f", "(", ")", "[", "]", ";"]
+    rng = chk.rng
+    for bname, build in builders.items():
+        seqs = [w for w in itertools.product(alpha2, repeat=5)][:: 7] if tier == "quick" else list(itertools.product(alpha2, repeat=6))
+        seqs += [tuple(rng.choice(alpha2 + ["f", "("]) for _ in range(rng.randint(6, 24))) for _ in range(400 if tier == "quick" else 6000)]
+        shared = build()
+        for w in seqs:
+            toks = [Token(Location(1, i + 1), N if v == "f" else Pu, v) for i, v in enumerate(w)]
+            spans = lambda ps: [(p.start, p.end) for p in ps]
+            r1 = G.guarded(lambda: spans(matcher.find_all(shared, toks)))
+            r2 = G.guarded(lambda: spans(matcher.find_all(shared, toks)))
+            r3 = G.guarded(lambda: spans(matcher.find_all(build(), toks)))
+            chk.evaluations += 1
+            chk.count("composite stateful predicate: " + bname)
+            probs = []
+            if r1 != r3:
+                probs.append(f"an expression object used before gives {r1}, a fresh equal expression {r3}")
+            if r2 != r3:
+                probs.append(f"searching the same expression object a second time gives {r2}, a fresh expression {r3}")
+            if r3[0] == 0:
+                for s0, t0 in r3[1]:
+                    iso = G.guarded(lambda: spans(matcher.find_all(build(), toks[s0:])))
+                    if iso[0] != 0 or not iso[1] or iso[1][0] != (0, t0 - s0):
+                        probs.append(f"match ({s0},{t0}) differs from the isolated run from its start ({iso[1][:1] if iso[0] == 0 else iso})")
+                if r3[1]:
+                    chk.nontrivial.add(("composite", bname, w))
+            if probs:
+                chk.violation({"shape": bname, "tokens": list(w)}, f"find_all[{bname}] on {' '.join(w)}: " + "; ".join(probs[:3]))
     chk.samples = [c for _, _, c in model_cases[500:502] + model_cases[-2:]]
     if model_ok:
         mism, err = eval_cases("C14", IMPORTS, [(m, o) for m, o, _ in model_cases], shard=500)
